@@ -65,6 +65,23 @@ def programs(tier: str):
             for place in PLACES:
                 for mode in (["full"], ["break", 1], ["aclose", 1]):
                     yield {"k": 2, "end": "normal", "feature": "plain", "created": created, "place": place, "mode": mode, "source_form": form}
+    # LONG streams: 5..17 (33) items, plain / recording / nested-scope generators, every place;
+    # full consumption, break / aclose / cancel at the first, a middle and the last item
+    for k in (5, 6, 7, 9, 17) if tier == "quick" else (5, 6, 7, 8, 9, 12, 17, 33):
+        for end in ("normal", "error"):
+            for feature in ("plain", "record", "scope"):
+                if feature not in FEATURES:
+                    continue
+                for place in PLACES:
+                    for created in ("in-scope", "outside"):
+                        if created == "outside" and feature != "plain":
+                            continue
+                        modes = [["full"]]
+                        if feature == "plain" and created == "in-scope":
+                            for j in sorted({1, k // 2, k - 1, k}):
+                                modes += [["break", j], ["aclose", j], ["cancel", j]]
+                        for mode in modes:
+                            yield {"k": k, "end": end, "feature": feature, "created": created, "place": place, "mode": mode, "long": True}
     for k in BOUNDS[tier]["items"]:
         for end in ("normal", "error"):
             for feature in FEATURES:
